@@ -208,7 +208,7 @@ func verifC03Struct() {
 	kc := true
 	// the third value is one of the first two rebuilt, or a fresh one (thorough)
 	if vTier() > 0 && vChoice("third", 2) == 1 {
-		c, kc = c03Structure("c", shape)
+		c, kc = b, kb
 	} else {
 		c, kc = a, ka
 	}
@@ -222,14 +222,15 @@ func verifC03CtySet() {
 	var ks [3]int64
 	var vs [3]Value
 	pats := [][3]int{{0, 0, 0}, {0, 1, 2}, {2, 0, 1}}
-	pat := pats[1+vChoice("precisions", 2)]
+	pat := pats[1]
+	if vTier() > 0 {
+		pat = pats[vChoice("precisions", 3)]
+	} else {
+		pat = pats[1+vChoice("precisions", 2)]
+	}
 	for i := range ks {
 		ks[i] = vInt("k", 0, 2) * 2 // halves: 0, 0.5, 1
-		if vTier() > 0 {
-			vs[i] = c03Num("k", ks[i])
-		} else {
-			vs[i] = c03NumP(pat[i], ks[i])
-		}
+		vs[i] = c03NumP(pat[i], ks[i])
 	}
 	distinct := 1
 	if ks[1] != ks[0] {
